@@ -47,9 +47,10 @@ def property_theorems():
     """{property id: [(fully qualified name, file)]} from lean/MoThreads/Props/*.lean"""
     res = {}
     pdir = os.path.join(LEAN, "MoThreads", "Props")
+    lib = set(library_modules())
     for f in sorted(os.listdir(pdir)):
-        if not f.endswith(".lean"):
-            continue
+        if not f.endswith(".lean") or "MoThreads.Props." + f[:-5] not in lib:
+            continue     # a file nothing imports is not part of the library (work in progress)
         text = strip_comments(open(os.path.join(pdir, f)).read())
         ns = []
         for line in text.splitlines():
@@ -153,21 +154,46 @@ def _drop_stale_build_files():
                     pass
 
 
-def leanchecker(modules=("MoThreads",)):
-    """re-check the compiled modules with the independent checker; the verdict is cached per source hash (work/leanchecker.json)"""
+def library_modules(root="MoThreads"):
+    """the modules of the library: everything imported, directly or not, from lean/MoThreads.lean (files lying around in the
+    source or build directory that nothing imports are not part of what is claimed)"""
+    seen, todo = [], [root]
+    while todo:
+        m = todo.pop()
+        if m in seen:
+            continue
+        path = os.path.join(LEAN, m.replace(".", os.sep) + ".lean")
+        if not os.path.exists(path):
+            continue
+        seen.append(m)
+        for line in open(path):
+            line = line.strip()
+            if line.startswith("import "):
+                for w in line.split()[1:]:
+                    if w == root or w.startswith(root + "."):
+                        todo.append(w)
+            elif line and not line.startswith("--") and not line.startswith("/-") and not line.startswith("import"):
+                if not line.startswith("set_option") and "import" not in line:
+                    pass
+    return sorted(seen)
+
+
+def leanchecker(modules=None):
+    """re-check the compiled modules of the library with the independent checker; cached per source hash (work/leanchecker.json)"""
     _drop_stale_build_files()
+    modules = list(modules) if modules else library_modules()
     cache = os.path.join(VERIF, "work", "leanchecker.json")
     h = None
     try:
         h = json.load(open(os.path.join(VERIF, "work", "audit.json"))).get("hash")
         c = json.load(open(cache))
-        if h and c.get("hash") == h and c.get("modules") == list(modules):
+        if h and c.get("hash") == h and c.get("modules") == modules and c.get("ok"):
             return c["ok"], c["out"]
     except Exception:
         pass
-    rc, out = run(["lake", "env", "leanchecker"] + list(modules), LEAN, timeout=3600)
+    rc, out = run(["lake", "env", "leanchecker"] + modules, LEAN, timeout=3600)
     try:
-        json.dump({"hash": h, "modules": list(modules), "ok": rc == 0, "out": out[-2000:]}, open(cache, "w"))
+        json.dump({"hash": h, "modules": modules, "ok": rc == 0, "out": out[-2000:]}, open(cache, "w"))
     except Exception:
         pass
     return rc == 0, out[-2000:]
